@@ -262,6 +262,11 @@ def definition_pairing(ctx, rep, clause):
                 isinstance(n.test.ops[0], ast.Eq):
             names = {x.id for s in n.body for x in ast.walk(s) if isinstance(x, ast.Name)}
             found[n.test.comparators[0].value] = (names, n)
+        # ... or as the arm of a conditional expression: `ELECTRON_MASS if element == 'e' else ...`
+        if isinstance(n, ast.IfExp) and isinstance(n.test, ast.Compare) and len(n.test.comparators) == 1 and \
+                isinstance(n.test.comparators[0], ast.Constant) and n.test.comparators[0].value in want and \
+                isinstance(n.test.ops[0], ast.Eq) and n.test.comparators[0].value not in found:
+            found[n.test.comparators[0].value] = ({x.id for x in ast.walk(n.body) if isinstance(x, ast.Name)}, n)
     # ... or the particles are looked up in a literal table {'e': ELECTRON_MASS, ...}
     for n in walk_own(g.node):
         if isinstance(n, ast.Dict) and n.keys and all(isinstance(k_, ast.Constant) for k_ in n.keys):
